@@ -86,6 +86,9 @@ pub fn explore(ex: &Ex) {
                 }
             }
             for (wname, pb) in &wrappers {
+                // the byte string on its own, through ProtectedHeader::from_cbor_bstr
+                l.state(lvl as u64);
+                ex.decode(l, "c02", crate::refcose::Ty::Protected, Entry::Bstr, pb);
                 for (cname, ty, bytes) in header_carriers_with(&p, pb, true) {
                     if !cname.ends_with(".protected") {
                         continue;
